@@ -1,6 +1,7 @@
 import WK.Proofs.C20_Planners
 import WK.Proofs.C20_Table
 import WK.Proofs.C20_Codec
+import WK.Proofs.C20_Facts
 /-
   C20 — The hash-slot table assigns every hash slot to exactly one slot.
 
